@@ -286,17 +286,17 @@ func (e *FieldExpression) unwrapReference(ref *dtpb.Reference) *dtpb.String {
 func (e *FieldExpression) unwrapOneof(obj proto.Message) proto.Message {
 	message := obj.ProtoReflect()
 	descriptor := message.Descriptor()
-	if name := string(descriptor.Name()); !(strings.HasSuffix(name, "ValueX") || name == "ContainedResource") {
-		return obj
+	// Choice wrappers (Patient.deceased[x], Observation.value[x], …) hold their
+	// value in a oneof named "choice"; a ContainedResource in its single oneof.
+	oneof := descriptor.Oneofs().ByName("choice")
+	if oneof == nil {
+		if descriptor.Name() != "ContainedResource" || descriptor.Oneofs().Len() != 1 {
+			return obj
+		}
+		oneof = descriptor.Oneofs().Get(0)
 	}
-	oneofsNum := descriptor.Oneofs().Len()
-	if oneofsNum != 1 {
-		return obj
-	}
-
-	oneof := descriptor.Oneofs().Get(0)
 	field := message.WhichOneof(oneof)
-	if oneof == nil || field == nil {
+	if field == nil {
 		return obj
 	}
 	if msg := message.Get(field).Message(); msg != nil {
